@@ -33,6 +33,13 @@ COUNTS = {}
 FIRED = []
 
 
+class UnprintableError(ProgError):
+    def __str__(self):
+        raise IndexError('this exception has no printable form')
+
+    __repr__ = __str__
+
+
 def fault_point(name, pos, proc=None):
     key = '%s/%s' % (name, pos)
     n = COUNTS.get(key, 0) + 1
@@ -40,7 +47,8 @@ def fault_point(name, pos, proc=None):
     # position 'before+' / 'after+': a hook that is simply broken -- it raises at that occurrence and at every later call
     if FAULT is not None and FAULT[0] == name and (
             (FAULT[1] == pos and FAULT[2] == n) or (FAULT[1] == pos + '+' and n >= FAULT[2])):
-        exc = ProgError('X:%s' % key)
+        # (every other listener fault is an exception that cannot even be turned into text: reporting it must not become a second fault)
+        exc = (UnprintableError if name.startswith('listener.') and n % 2 == 0 else ProgError)('X:%s' % key)
         exc.proc_terminated = proc.has_terminated() if proc is not None and getattr(proc, '_state', None) is not None else None
         FIRED.append(exc)
         raise exc
